@@ -30,7 +30,13 @@ const REAL_WORLD: [&str; 14] = [
 
 pub fn gen_unknown_key(rng: &mut Rng, known: &[String]) -> V {
     loop {
-        let k: String = match rng.below(10) {
+        let k: String = match rng.below(12) {
+            // near misses of the host's own member names (case, padding, one character more or less)
+            // and names that collide with them under common hand-written string hashes
+            10 | 11 if !known.is_empty() => {
+                let w = rng.pick(known).clone();
+                crate::schema::identifier_variant(rng, &w)
+            }
             0 => String::new(),
             1 => rng.ascii(1),
             2 => rng.ascii(23),
